@@ -50,23 +50,28 @@ theorem text_no_panic (raw : Bytes) : textIdx raw = .ok (text raw) := textIdx_re
 /-- `Tar`: `raw[:512]`, `raw[:100]`, `raw[148:156]` are guarded by the length test -/
 theorem tar_no_panic (raw : Bytes) (h : AllBytes raw) : tarIdx raw = .ok (tar raw) := tarIdx_refines raw h
 
-/-- **regenerated tie**: the index and slice expressions of these functions in the current source are
-    exactly the ones `Model/Idx.lean` transliterates (in source order).  An edited index expression,
-    a new one, or a dropped one changes this list and the obligation fails: the transliteration has
-    to be re-read against the code -/
-theorem index_expressions_as_modelled :
-    Gen.Writes.indexExprs = [
-  "charset.FromPlain: content[i] | content[i:] | content[:i]",
-  "charset.ascii: textChars[b]",
-  "charset.fromMetaElement: s[csLoc+len(\"charset\"):] | s[1:] | s[0] | s[1:] | s[:closeQuote] | s[:end]",
-  "charset.latin: textChars[b]",
-  "charset.trimLWS: in[firstNonWS] | in[firstNonWS:]",
-  "charset.xmlEncoding: s[idx+len(param):] | v[0] | v[0] | v[1:] | v[0] | v[1:idx+1]",
-  "magic.Tar: raw[:sizeRecord] | raw[:100] | raw[148:156]",
-  "magic.dropCR: data[len(data)-1] | data[0:len(data)-1]",
-  "magic.dropLastLine: b[i] | b[:i]",
-  "magic.trimLWS: in[firstNonWS] | in[firstNonWS:]",
-  "magic.trimRWS: in[lastNonWS] | in[:lastNonWS+1]"] := by decide
+/-- what `Model/Idx.lean` transliterates: per function, the index and slice expressions it may evaluate (as a set) -/
+def modelledIndexSets : List (String × List String) := [
+  ("charset.FromPlain", ["content[:i]", "content[i:]", "content[i]"]),
+  ("charset.ascii", ["textChars[b]"]),
+  ("charset.fromMetaElement", ["s[0]", "s[1:]", "s[:closeQuote]", "s[:end]", "s[csLoc+len(\"charset\"):]"]),
+  ("charset.latin", ["textChars[b]"]),
+  ("charset.trimLWS", ["in[firstNonWS:]", "in[firstNonWS]"]),
+  ("charset.xmlEncoding", ["s[idx+len(param):]", "v[0]", "v[1:]", "v[1:idx+1]"]),
+  ("magic.Tar", ["raw[148:156]", "raw[:100]", "raw[:sizeRecord]"]),
+  ("magic.dropCR", ["data[0:len(data)-1]", "data[len(data)-1]"]),
+  ("magic.dropLastLine", ["b[:i]", "b[i]"]),
+  ("magic.trimLWS", ["in[firstNonWS:]", "in[firstNonWS]"]),
+  ("magic.trimRWS", ["in[:lastNonWS+1]", "in[lastNonWS]"])]
+
+/-- **regenerated tie**: every index and slice expression of these functions in the current source is one of
+    those `Model/Idx.lean` transliterates for that function (a set inclusion: dropped, repeated or moved
+    expressions need no new reading; a new expression does) -/
+theorem index_expressions_within_modelled :
+    (Gen.Writes.indexSets.all fun fe =>
+      match modelledIndexSets.lookup fe.1 with
+      | some xs => fe.2.all (fun e => xs.contains e)
+      | none => fe.2.isEmpty) = true := by decide
 
 /- the checked primitives do panic when asked to (the model can express the failure it excludes) -/
 example : elemAt [1, 2, 3] 3 = (Out.panic : Out Nat) := by decide
